@@ -83,12 +83,17 @@ def _conditional_handler(ev: te.TermEval, call: ast.Call):
 
 
 def build(sm: SourceModel, f: Func) -> SchemeModel:
+    from .canon import Canon
+    from .inline import inlined
+
+    f = inlined(sm, f)
     node = f.node
+    canon = Canon(node)
     dt = f.params[1]
     printer = "printer" if "printer" in f.params else None
     # main loop: the (single) top-level for loop whose iterable mentions the first parameter
     loops = [st for st in node.body if isinstance(st, ast.For)]
-    loops = [l for l in loops if f.params[0] in {n.id for n in ast.walk(l.iter) if isinstance(n, ast.Name)}]
+    loops = [l for l in loops if f.params[0] in {n.id for n in ast.walk(canon.resolve(l.iter)) if isinstance(n, ast.Name)}]
     if len(loops) != 1:
         raise AnalysisError(f"{f.key()}: expected exactly one top-level loop over the model's assignments, found {len(loops)}")
     loop = loops[0]
@@ -191,7 +196,9 @@ def build(sm: SourceModel, f: Func) -> SchemeModel:
                 printed = [e[0] for e in emissions[: store[3]]]
                 lin_ok = all(u in printed for u in used)
         rows.append(PathRow(frozenset(lits), p.pred(), emissions, store, len(stores), before, after, p.exit, first_ok, lin_ok, notes))
-    return SchemeModel(f, loop, x, loop.iter, dt, values_name, values_shape, counter, counter_init, rows, pre, printer, result_list or "")
+    if values_shape is not None:
+        values_shape = canon.resolve(values_shape)
+    return SchemeModel(f, loop, x, canon.resolve(loop.iter), dt, values_name, values_shape, counter, counter_init, rows, pre, printer, result_list or "")
 
 
 def _symbol_terms(t) -> list:
